@@ -95,6 +95,19 @@ def _noraise_call(model, c, m, f, call, depth, seen):
             return 'recursive/deep callee %s' % fmt(key)
         why = noraise_function(model, c, r[1], r[2], depth + 1, seen | set([key]))
         return None if why is None else 'callee %s may raise: %s' % (fmt(key), why)
+    # a method of the same class called through self / cls / the class name (a helper that builds the record)
+    if isinstance(call.func, ast.Attribute) and isinstance(call.func.value, ast.Name):
+        owner = m.parent(f)
+        while owner is not None and not isinstance(owner, ast.ClassDef):
+            owner = m.parent(owner) if not isinstance(owner, ast.Module) else None
+        if isinstance(owner, ast.ClassDef) and call.func.value.id in (sa.self_name(f), 'cls', owner.name):
+            lm = model.lookup_method(m, owner, call.func.attr)
+            if lm and isinstance(lm[2], ast.FunctionDef):
+                key = (lm[0].name, lm[0].qualname_of(lm[2]))
+                if key in seen or depth > 4:
+                    return 'recursive/deep callee %s' % fmt(key)
+                why = noraise_function(model, c, lm[0], lm[2], depth + 1, seen | set([key]))
+                return None if why is None else 'callee %s may raise: %s' % (fmt(key), why)
     return 'call to %s, which is not known to be non-raising' % (name or src(call.func))
 
 
@@ -197,6 +210,11 @@ def _r1(model, res, c, m, f, root):
                 break
             p = m.parent(p)
         why = _raising_construct(model, c, m, f, n, 0, frozenset([root]), caught)
+        if isinstance(n, ast.Assert) and why and assert_always_holds(f, n):
+            why = None      # an invariant of the bookkeeping, true on every path that reaches it
+        if why and any(isinstance(a_, ast.Assert) and any(x is n for x in ast.walk(a_)) and assert_always_holds(f, a_)
+                       for a_ in walk_no_defs(f) if isinstance(a_, ast.Assert)):
+            why = None      # part of the test of such an assert
         if isinstance(n, ast.Call):
             n_calls += 1
         if isinstance(n, (ast.Call, ast.Raise, ast.Subscript, ast.BinOp, ast.For, ast.While)) or why:
@@ -572,6 +590,92 @@ def _check_error_form(model, res, m, f, root, val, stmt):
 NONE, NOTERR, ERR, TOP, SET = 'none', 'not-an-error', 'error-object', 'unknown', 'set'
 
 
+def _env_along(items, stop=None):
+    """Abstract values of the local names after the path items (up to, not including, statement ``stop``); None = infeasible path."""
+    env = {}
+    for it in items:
+        if stop is not None and it[0] == 'stmt' and it[1] is stop:
+            return env
+        env = _env_step(env, it)
+        if env is None:
+            return None
+    return env if stop is None else False       # False: the path does not run through ``stop``
+
+
+def _env_step(env, it):
+    if True:
+        if True:
+            if it[0] == 'stmt' and isinstance(it[1], ast.Assign):
+                st = it[1]
+                for t in st.targets:
+                    if isinstance(t, ast.Name):
+                        env[t.id] = _abs_value(st.value, env)
+            elif it[0] == 'cond':
+                for a, truth in atoms(it[1], it[2]):
+                    if isinstance(a, ast.Call) and sa.call_name(a) == 'isinstance' and len(a.args) == 2 and \
+                            isinstance(a.args[0], ast.Name) and 'XLError' in src(a.args[1]):
+                        cur = env.get(a.args[0].id)
+                        if (truth and cur in (NONE, NOTERR, SET)) or (not truth and cur == ERR):
+                            return None         # the test cannot come out this way on this path
+                        env[a.args[0].id] = ERR if truth else (NOTERR if cur in (TOP, None, NOTERR) else cur)
+                    if isinstance(a, ast.Compare) and len(a.ops) == 1 and isinstance(a.ops[0], (ast.Is, ast.IsNot)) and \
+                            isinstance(a.left, ast.Name) and isinstance(a.comparators[0], ast.Constant) and a.comparators[0].value is None:
+                        is_none = isinstance(a.ops[0], ast.Is) == truth
+                        if is_none:
+                            env[a.left.id] = NONE
+                        elif env.get(a.left.id) == NONE:
+                            return None
+    return env
+
+
+def _test3(t, env):
+    """True / False / None (unknown) of a test built from ``is None``, ``isinstance(x, str)``, and / or / not over local names."""
+    if isinstance(t, ast.BoolOp):
+        vals = [_test3(v, env) for v in t.values]
+        if isinstance(t.op, ast.Or):
+            return True if any(v is True for v in vals) else (False if all(v is False for v in vals) else None)
+        return False if any(v is False for v in vals) else (True if all(v is True for v in vals) else None)
+    if isinstance(t, ast.UnaryOp) and isinstance(t.op, ast.Not):
+        v = _test3(t.operand, env)
+        return None if v is None else (not v)
+    if isinstance(t, ast.Compare) and len(t.ops) == 1 and isinstance(t.ops[0], (ast.Is, ast.IsNot)) and isinstance(t.left, ast.Name) and \
+            isinstance(t.comparators[0], ast.Constant) and t.comparators[0].value is None:
+        a = env.get(t.left.id, TOP)
+        v = True if a == NONE else (False if a in (NOTERR, ERR, SET) else None)
+        return v if (v is None or isinstance(t.ops[0], ast.Is)) else (not v)
+    if isinstance(t, ast.Call) and sa.call_name(t) == 'isinstance' and len(t.args) == 2 and isinstance(t.args[0], ast.Name):
+        a = env.get(t.args[0].id, TOP)
+        what = src(t.args[1])
+        if what in ('str', 'string_types') and a == SET:
+            return True
+        if a == NONE:
+            return False
+        if 'XLError' in what and a in (ERR, NOTERR):
+            return a == ERR
+    return None
+
+
+def assert_always_holds(f, node):
+    """An ``assert`` of parse() whose test is true on every path that reaches it (decided on the abstract values the result / error
+    bookkeeping of the path has established): evaluating it neither raises nor fails."""
+    if not all(isinstance(x, (ast.BoolOp, ast.UnaryOp, ast.Compare, ast.Call, ast.Name, ast.Constant, ast.Is, ast.IsNot, ast.Or, ast.And, ast.Not,
+                              ast.Load, ast.Attribute)) for x in ast.walk(node.test)):
+        return False
+    seen = False
+    try:
+        paths = function_paths(f)
+    except Exception:
+        return False
+    for p in paths:
+        env = _env_along(p.items, stop=node)
+        if env is False or env is None:
+            continue
+        seen = True
+        if _test3(node.test, env) is not True:
+            return False
+    return seen
+
+
 def _r4(model, res, c, m, f, root):
     site = fmt(root)
     n = 0
@@ -606,6 +710,20 @@ def _r4(model, res, c, m, f, root):
             continue            # infeasible path
         ret = p.terminal[1]
         rec = sa.resolve_local(f, ret.value) if isinstance(ret.value, ast.Name) else ret.value
+        if isinstance(rec, ast.Call):
+            # the record built by a helper (self._failure(e)): its single dict-literal return, read with the helper's parameters bound to
+            # what the call site hands over
+            helper = _record_helper(model, m, f, rec)
+            if helper is not None:
+                hf, hrec = helper
+                hps = [a.arg for a in hf.args.args]
+                if hps and hps[0] in ('self', 'cls') and isinstance(rec.func, ast.Attribute) and not any(
+                        src(d_) == 'staticmethod' for d_ in hf.decorator_list):
+                    hps = hps[1:]
+                elif hps and hps[0] in ('self', 'cls') and any(src(d_) == 'classmethod' for d_ in hf.decorator_list):
+                    hps = hps[1:]
+                henv = dict((pn, _abs_value(a, env)) for pn, a in zip(hps, rec.args))
+                env, rec = henv, hrec
         if not isinstance(rec, ast.Dict):
             continue
         vals = {}
@@ -626,6 +744,29 @@ def _r4(model, res, c, m, f, root):
                           'on a path through parse() the result entry may itself be an error object (result=%s): an error value '
                           'returned by the evaluation is not converted into the error entry' % r, case=p.describe(), func=root[1])
     res.floor('return paths of parse() examined', n, 4)
+
+
+def _record_helper(model, m, f, call):
+    """(FunctionDef, Dict node) when ``call`` is a call of a function / same-class method whose only return is a dict literal."""
+    target = None
+    if isinstance(call.func, ast.Attribute) and isinstance(call.func.value, ast.Name):
+        owner = m.parent(f)
+        while owner is not None and not isinstance(owner, ast.ClassDef):
+            owner = m.parent(owner) if not isinstance(owner, ast.Module) else None
+        if isinstance(owner, ast.ClassDef) and call.func.value.id in (sa.self_name(f), 'cls', owner.name):
+            lm = model.lookup_method(m, owner, call.func.attr)
+            if lm and isinstance(lm[2], ast.FunctionDef):
+                target = lm[2]
+    if target is None and isinstance(call.func, (ast.Name, ast.Attribute)):
+        r = model.resolve_attr_chain(m, call.func)
+        if r and r[0] == 'func' and isinstance(r[2], ast.FunctionDef):
+            target = r[2]
+    if target is None:
+        return None
+    rets = [n for n in walk_no_defs(target) if isinstance(n, ast.Return)]
+    if len(rets) == 1 and isinstance(rets[0].value, ast.Dict):
+        return target, rets[0].value
+    return None
 
 
 def _abs_value(v, env):
